@@ -359,7 +359,8 @@ def run(chk, tier):
             one_part(chk, build, dp, "LayoutProgs", "programs%d" % k, workers, 900, stats, names)
     chk.rule = ("case = one abstract program (block tree) whose renderings are compared: quick = all trees with <= 3 statements, "
                 "nesting <= 3, over 13 statement shapes + 12 larger trees, 8 styles each (each of braced/piled/mixed1/mixed2 twice, "
-                "each continuation none/stair/hang/esc twice; indent width 1..8, blank/white-space/comment lines and trailing "
+                "each continuation none/stair/hang/esc twice, the escaped breaks in 4 variants (plain, blanks/tabs after `_`, a "
+                "blank line after the break, a line holding only `_`); indent width 1..8, blank/white-space/comment lines and trailing "
                 "comments at every line boundary, tabs/spaces/mixed, token spacing spread over the trees by the seed) and 20 real "
                 "programs x 8 styles; thorough adds all trees <= 3 statements over 18 shapes x 16 styles, all trees <= 4 statements "
                 "over 10 shapes x 8 styles, trees <= 2 statements x the full 1792-style cross product, 20 programs x 20 seeded "
@@ -462,6 +463,13 @@ from Linear.tla's stream (localises the rule; never the reason for the exit stat
  first round misses that changed the check: M2/M7 were masked because suppressed known findings used up the cap on
  reported violations (fixed: the cap counts real violations only); M6 needed the `alt` tab style; M8 needed trees with a
  multi-statement block before `where` (ExtraTrees).
+
+Seeded changes from the lead (bin/seedtest, quick tier), missed at first, caught after the escaped-line-break variants
+(Layout!EscVariants: blanks/tabs between `_` and the line break, a blank or white-space-only line after the escaped break, a
+line holding only `_`; every other escaped continuation at the column of the statement's first line):
+  C14-2 scan.c scAdvance1 skips one character of escaped white space   exit 1, 20 VIOLATIONs (accept-differs / ap-differs)
+  C14-3 scan.c scAdvance1 without the re-check (`goto restart`)        exit 1, 20 VIOLATIONs (accept-differs)
+ unchanged tree with the variants: exit 0 for VERIF_SEED 20261004, 777, 4242; the float-context defect stays a KNOWN-FINDING.
 
 Corrupted record (python3 checks/c14.py --selftest): one blank added to the lead of one line of an exported piled rendering
 -> 1 VIOLATION (accept/ap differs); one token of a recorded `leaving` stream replaced -> drift leaving +1; clean replay of
